@@ -36,8 +36,15 @@ TrBin    == /\ IsEvent("bin") /\ UNCHANGED m
                /\ ev.compat = Compatible(m, b)
                /\ (Compatible(m, b) => ev.un = PairSeq(Union_(m, b)))
 
+(* construction of the current pair set from a shuffled listing: the result is the same map  *)
+TrBuild  == /\ IsEvent("build") /\ UNCHANGED m
+            /\ FromSeq(ev.order) = m
+            /\ ev.pairs = PairSeq(m) /\ ev.len = Len_(m)
+            /\ ev.eq /\ ev.hash /\ ev.cmp_equal /\ ev.inv_inv
+            /\ \A i \in DOMAIN ev.gets : ev.gets[i][2] = Get(m, ev.gets[i][1])
+
 TraceInit == m = Empty /\ l = 1
-TraceNext == TrReset \/ TrInsert \/ TrRemove \/ TrRead \/ TrBin
+TraceNext == TrReset \/ TrInsert \/ TrRemove \/ TrRead \/ TrBin \/ TrBuild
 TraceSpec == TraceInit /\ [][TraceNext]_<<m, l>>
 
 TraceAccepted ==
